@@ -454,7 +454,7 @@ func genNested(s *TreeScript, r *sim.Rand) sim.Script {
 // GenRounds generates a multi-round script (C04, C05).
 func GenRounds(prop string, r *sim.Rand, tier string) sim.Script {
 	s := &RoundScript{Prop: prop, Lag: r.Intn(3), Rebase: r.Chance(1, 2)}
-	defer func() { s.WriteErr = r.Chance(1, 6) }() // drawn last
+	defer func() { s.WriteErr = s.WriteErr || r.Chance(1, 6) }() // drawn last
 	profile := []string{"tiny", "fixed", "mixed", "dense", "dense"}[r.Intn(5)]
 	nPool := 2 + r.Intn(8)
 	nRounds := 1 + r.Intn(5)
@@ -477,6 +477,13 @@ func GenRounds(prop string, r *sim.Rand, tier string) sim.Script {
 		bigRound = r.Intn(nRounds)
 		nPool = 200 + r.Intn(300)
 		profile = []string{"fixed", "mixed"}[r.Intn(2)]
+	}
+	hugeRound := r.Chance(1, 3000) // ... or many thousands (a save of several batches, if the store splits it)
+	if hugeRound {
+		bigRound = r.Intn(nRounds)
+		nPool = 3200 + r.Intn(1800)
+		profile = "fixed"
+		s.WriteErr = true
 	}
 	pool := pathPool(r, profile, nPool)
 	valProfile := []string{"small", "small", "plain"}[r.Intn(3)]
@@ -582,6 +589,7 @@ func GenSched(r *sim.Rand, tier string) sim.Script {
 		s.Ops = append(s.Ops, Op{K: "lose", P: "norepair", S: []int{r.Intn(1000)}, N: int64(r.Intn(100))})
 	}
 	nt := 2 + r.Intn(3)
+	s.LossyWrites = lossy && r.Chance(1, 2)
 	if !lossy && r.Chance(1, 8) {
 		// judged change counts: only plain writes and reads, at most five writes in all
 		s.CountJudge = true
@@ -647,6 +655,9 @@ func GenSched(r *sim.Rand, tier string) sim.Script {
 			w := []int{30, 18, 25, 8, 5, 4, 3, 4, 3, 6, 3, 3, 3, 3}
 			if lossy {
 				w = []int{0, 0, 40, 10, 5, 15, 10, 0, 3, 0, 3, 0, 0, 3}
+				if s.LossyWrites {
+					w[0], w[1] = 14, 8 // writers next to readers that run into absent nodes: only the panic / deadlock / race clauses are judged
+				}
 			}
 			switch r.Weighted(w) {
 			case 0:
